@@ -166,12 +166,18 @@ def _validate_dict_match(
                     match=False,
                     differences=[f"'{target_key}'", "<expected an array of objects>"],
                 )
+            recorded_items = last_applied_value[target_key]
+            if not (
+                isinstance(recorded_items, (list, tuple))
+                and all(isinstance(item, dict) for item in recorded_items)
+            ):
+                # Recorded for an earlier target in which this was not an
+                # array of objects.
+                recorded_items = None
             key_match = validate_match(
                 target=_list_to_object(target[target_key], map_keys),
                 actual=_list_to_object(compare_value, map_keys),
-                last_applied_value=_list_to_object(
-                    last_applied_value[target_key], map_keys
-                ),
+                last_applied_value=_list_to_object(recorded_items, map_keys),
             )
         else:
             key_match = validate_match(
